@@ -25,8 +25,11 @@
 (*          recorded name that changed in that tick (simulator integers,    *)
 (*          memories: <<word index, value>> pairs under m)                  *)
 (*   pini   name -> FHDL reset value of the variables that are declared as  *)
-(*          `output reg` ports (the back end prints no initial value for    *)
-(*          them).  Only used by the hypothesis chain hyp = 1, which never  *)
+(*          `output reg` ports WITHOUT an initial value (the back end used  *)
+(*          to print none for them - repaired finding C01-output-reg-port-  *)
+(*          without-initial-value; empty on the repaired tree, where ini    *)
+(*          carries the ports' initial values like those of internal regs). *)
+(*          Only used by the hypothesis chain hyp = 1, which never          *)
 (*          gives the verdict: if the plain chain (hyp = 0) of a design is  *)
 (*          rejected and its hyp = 1 chain is accepted, the cause of the    *)
 (*          rejection is the missing initial value of a port register.      *)
